@@ -94,6 +94,32 @@ func init() {
 		c.n.assume(mkImp(mkEq(c.args[0].S, c.args[1].S), r))
 		return boolRes(c, r)
 	})
+	reg("errors.As", "pure predicate/extractor pair (As_T(err), AsVal_T(err)) per target type; direct dynamic-type match implies success; nil never matches", func(c *callCtx) bool {
+		mi, ok := c.argVals[1].(*ssa.MakeInterface)
+		if !ok {
+			return false
+		}
+		pt, ok := types.Unalias(mi.X.Type()).Underlying().(*types.Pointer)
+		if !ok {
+			return false
+		}
+		x := c.x
+		okT, valT := x.errorsAsTerms(c.args[0], pt.Elem())
+		ref := Term{S: app("i.val", c.args[1].S), Sort: SInt, T: mi.X.Type()}
+		// the target may be a local cell whose address was boxed: write through its place when known
+		var p *Place
+		if pl, has := c.fr.places[mi.X]; has {
+			p = pl
+		} else if pv, has := c.fr.vals[mi.X]; has {
+			ref = pv
+			p = x.ptrPlaceT(nil, c.n, ref, 0)
+		} else {
+			p = x.ptrPlaceT(nil, c.n, ref, 0)
+		}
+		old := x.loadPlace(c.n, c.st, p)
+		x.storePlace(c.n, c.st, p, Term{S: mkIte(okT, valT.S, old.S), Sort: valT.Sort, T: pt.Elem()})
+		return boolRes(c, okT)
+	})
 	reg("errors.Unwrap", "pure function of err", func(c *callCtx) bool {
 		c.x.vc.declFun("uf_errors_Unwrap", []string{SIface}, SIface)
 		c.res = []Term{{S: app("uf_errors_Unwrap", c.args[0].S), Sort: SIface, T: c.resTypes[0]}}
@@ -162,4 +188,20 @@ func pureExternal(name string) bool {
 		return pureList[name[:i]]
 	}
 	return false
+}
+
+// errorsAsTerms: the (found, value) pair modelling errors.As(err, *T).
+func (x *Exec) errorsAsTerms(err Term, t types.Type) (string, Term) {
+	s := x.ss.sortOf(t)
+	m := mangle(typeKeyShort(t))
+	fok, fval := "uf_errors_As_"+m, "uf_errors_AsVal_"+m
+	x.vc.declFun(fok, []string{SIface}, SBool)
+	x.vc.declFun(fval, []string{SIface}, s)
+	ok := app(fok, err.S)
+	val := Term{S: app(fval, err.S), Sort: s, T: t}
+	tag := x.ss.tagOf(t)
+	direct := app("=", app("i.tag", err.S), intLit(int64(tag)))
+	x.vc.axiom(mkImp(direct, mkAnd(ok, mkEq(val.S, x.unboxIface(err, t).S))))
+	x.vc.axiom(mkImp(app("=", app("i.tag", err.S), "0"), mkNot(ok)))
+	return ok, val
 }
